@@ -596,9 +596,9 @@ def check_rk4(out, o, h, T, mu, deep):
     ref = kepler_ref(o["x0"], T, mu)
     es = []
     last = None
-    # the order is read off the finest pair; for coarse steps in low orbits (n_p h > 0.08) the pair (h, h/2) is still
-    # pre-asymptotic (observed 4.66 at n_p h = 0.14), so a third run at h/4 is added there
-    for hh in ((h, h / 2, h / 4) if (deep or o["n_p"] * h > 0.08) else (h, h / 2)):
+    # the order is read off the finest pair (h/2, h/4): the pair (h, h/2) is still pre-asymptotic for coarse steps in low
+    # orbits and for eccentric orbits (observed 4.66 at n_p h = 0.14, 4.99 at e = 0.52, n_p h = 0.066)
+    for hh in (h, h / 2, h / 4):
         r = vec(make(o["x0"], hh, "rk4").propagate(timedelta(seconds=T)))
         if not _finite(out, "rk4", "propagate", case_inp(o, hh, T), r):
             return
@@ -774,13 +774,23 @@ def check_chained(out, o, h, T, mu, method, tol):
     if not _finite(out, method, "chained propagate", inp, end):
         return
     ref = kepler_ref(o["x0"], q(T1) + q(T - T1), mu)
-    err = float(np.linalg.norm(end[:3] - ref[:3]))
     N = abs(T) / h
     nT = o["n_p"] * abs(T)
     nh = o["n_p"] * h
     bound = (0.03 + 1.0 * o["rp"] * nh ** 4 * (1 + nT) ** 2) if method == "rk4" else (0.03 + 10 * (N + 16) * tol * (1 + nT))
+    err = float(np.linalg.norm(end[:3] - ref[:3]))
     if err > bound:
-        out.fail("chained-propagate-error", "a request split in two propagate calls ends farther from the analytical solution than the accuracy bound of the chosen settings",
+        fam = "chained-propagate-error"
+        if lost:
+            # is the excess explained by the lost settings?  continue once more from the same intermediate state with the chosen
+            # settings restored on the returned propagator
+            mid2 = orb.propagate(timedelta(seconds=T1))
+            for k_ in lost:
+                setattr(mid2.propagator, k_, {"method": method, "step": orb.propagator.step, "tol": tol}[k_])
+            end2 = vec(mid2.propagate(timedelta(seconds=q(T - T1))))
+            if float(np.linalg.norm(end2[:3] - ref[:3])) <= bound:
+                fam = "propagate-result-settings-" + "+".join(lost)
+        out.fail(fam, "a request split in two propagate calls ends farther from the analytical solution than the accuracy bound of the chosen settings",
                  inp, observed=err, expected=bound)
 
 
@@ -806,7 +816,7 @@ def oracle(ctx, widened):
         out.tally("full-3-orbit-horizon" if abs(T) >= 0.99 * 3 * o["period"] else "horizon<3 orbits")
         inp = case_inp(o, h, T)
         B = 40 if big else 20
-        if time.time() - t_start > (600 if ctx.thorough else 330 if widened else 45):
+        if time.time() - t_start > (480 if ctx.thorough else 330 if widened else 45):
             out.notes.append(f"oracle stopped after {k} of {ncases} orbits: time budget of the tier reached")
             break
 
